@@ -1084,8 +1084,21 @@ fn marshal_case(out: &mut Out, m: &MarshalledMessage, tag: &str, hbuf: &mut Vec<
 }
 
 fn big_body(bo: ByteOrder, len: usize) -> MarshalledMessageBody {
-    // `marshal` looks at the length and the signature of the body only
-    MarshalledMessageBody::from_parts(vec![0u8; len], 0, vec![], if len == 0 { String::new() } else { "ay".to_owned() }, bo)
+    big_body_sig(bo, len, 2)
+}
+
+/// a body of `len` zero bytes under a signature of `sig_len` characters ("ay", "ayy", ... : a byte array and single
+/// bytes; "y" alone for length 1). `marshal` looks at the length and the signature of the body only. The signature
+/// is the last header field, so its length decides how much padding separates header and body.
+fn big_body_sig(bo: ByteOrder, len: usize, sig_len: usize) -> MarshalledMessageBody {
+    let sig = if len == 0 {
+        String::new()
+    } else if sig_len == 1 {
+        "y".to_owned()
+    } else {
+        format!("ay{}", "y".repeat(sig_len - 2))
+    };
+    MarshalledMessageBody::from_parts(vec![0u8; len], 0, vec![], sig, bo)
 }
 
 fn run_send_messages(out: &mut Out, cfg: &Cfg) {
@@ -1098,6 +1111,22 @@ fn run_send_messages(out: &mut Out, cfg: &Cfg) {
             let mut m = MessageBuilder::with_byteorder(bo).call("m").on("/").build();
             m.body = big_body(bo, len);
             marshal_case(out, &m, &format!("total.{}", pos_name(56 + len, MSG_MAX)), &mut hbuf);
+        }
+        // every padding phase between header and body: the limit is on header + PADDING + body
+        for sig_len in 1..=9usize {
+            let mut m = MessageBuilder::with_byteorder(bo).call("m").on("/").build();
+            m.body = big_body_sig(bo, 8, sig_len);
+            let mut small = Vec::new();
+            if rustbus::wire::marshal::marshal(&m, NonZeroU32::new(9).unwrap(), &mut small).is_err() {
+                continue;
+            }
+            let padded_header = small.len();
+            let ds: &[i64] = if cfg.thorough { &[-8, -7, -2, -1, 0, 1, 2, 3, 4, 5, 6, 7, 8] } else { &[-1, 0, 1, 4, 7] };
+            for &d in ds {
+                let len = (MSG_MAX as i64 - padded_header as i64 + d) as usize;
+                m.body = big_body_sig(bo, len, sig_len);
+                marshal_case(out, &m, &format!("total.pad_phase{}.{}", (8 - (6 + sig_len) % 8) % 8, pos_name(padded_header + len, MSG_MAX)), &mut hbuf);
+            }
         }
         // with more header fields the same total is reached with a smaller body
         let mut m = MessageBuilder::with_byteorder(bo).call("member").on("/some/path").with_interface("some.iface").at("some.dest").build();
@@ -1238,7 +1267,7 @@ pub fn run(cfg: &Cfg) {
          per input byte, no panic. \
          SEND: &[u8] of 2^26-1, 2^26, 2^26+1 bytes on its own / in a struct / in a variant / as dict value (dict region \
          12+n at 2^26-1..2^26+1), &[u64] fast path and element-wise path, Param-API arrays and dicts at the boundary; \
-         marshal::marshal with header+body at 128 MiB -8..+8 and with an object path / interface that makes the field \
+         marshal::marshal with header+padding+body at 128 MiB -8..+8 in every padding phase between header and body (body signatures of 1..9 characters) and with an object path / interface that makes the field \
          array 2^26-1..2^26+8; send_message on the real connection with and without preset serial; direct: no emitted \
          length word > 64 MiB, no emitted message > 128 MiB, a refused message puts no byte on the wire. \
          A case is distinct by its request line (entry point, byte order, signature, bytes / lengths).",
